@@ -260,6 +260,8 @@ fn valid_soup(rng: &mut Rng) -> String {
         "begin", "END", "Foo", "x1", "_a", "&type", "Größe", "123", "1.5", "1e10", "1.5E-3", "$FF", "%1010", "1_000", "'s'", "''", "'a''b'", "#13", "#13#10", "'a'#13'b'", "#$0D",
         ":=", "<=", ">=", "<>", "..", "(", ")", "[", "]", "<", ">", "=", "+", "-", "*", "/", "^", "@", ".", ",", ";", ":", "{c}", "(*c*)", "{$R+}", "(*$R-*)", "{$IFDEF X}",
         "{$IF A > 1}", "{ multi\nline }", "// line\n", "'''\nml\n'''", "'unterminated\n", "?", "\"", "Foo.asm", "X.ASM", "A.end", "B . asm", "C.begin", "// cr\r", "//x\r", "// crcrlf\r\r\n", "10\u{b2}", "1.5\u{ff15}", "#13\u{663}", "$FF\u{b2}", "1e5\u{2075}", "%101\u{b9}",
+        // an exponent's digit run starts with a digit: the underscore begins an identifier
+        "1e_5", "2.5E+_1", "3E-_2x", "1_0e1_0",
     ];
     let n = rng.range(1, 40);
     let mut s = String::new();
